@@ -259,7 +259,7 @@ def correspond_fromtd(R, cases, results):
 
 HINTS = {"tensor": "tensor", "str": "concrete", "int": "concrete", "any": "any", "optional": "any", "tc": "coll"}
 VK = {"tensor": "tensor", "tensor4": "tensor", "tensor0": "tensor", "int": "number", "float": "number", "bool": "number", "ndarray": "number",
-      "str": "other", "numstr": "other", "list": "other", "dict": "dict", "none": "none"}
+      "str": "other", "numstr": "other", "list": "other", "dict": "dict", "tcdict": "dict", "none": "none"}
 
 
 def state_sx(st):
